@@ -30,6 +30,10 @@ ASSUMPTIONS = [
     "'BTC-USD-231229-35000-C'), Gate.io YYYYMMDD (doc comment of gateio/market.rs::format_expiry: '20241231'; fixture "
     "'ETH_USDT_QUARTERLY_20201225'); the future/option universes contain contracts expiring 2024-12-30 and 2025-12-30 "
     "(ISO week-year != calendar year) next to ordinary expiries",
+    "the strike component of an option symbol (OKX, Gate.io) is likewise rendered by the simulated venue from the "
+    "contract's strike as its canonical decimal string, no trailing zeros, fraction kept (fixture "
+    "'BTC-USD-231229-35000-C' in okx/trade.rs; strike 2.5 -> '...-2.5-C'); strikes are given in canonical form; the "
+    "option universes contain one contract with strike 2 and the same contract with strike 2.5",
     "the venue subscribes what the request names (a symbol it does not list is refused) and streams every listed "
     "market under its own symbol",
     "Gate.io futures/perpetual/option trade amount: sign as delivered or absolute value are both accepted (DESIGN 5.4)",
